@@ -85,3 +85,60 @@ Example C14_nontotal_rejected :
   mk_kripke [0; 1] [] [(0, 1)] [] = RuntimeErr /\
   rbind (mk_kripke [0; 1] [] [(0, 1); (1, 0)] []) (fun K => rmap states (substructure K [0])) = RuntimeErr.
 Proof. vm_compute. split; reflexivity. Qed.
+
+(* ---------------------------------------------------------------------------------------- *)
+(* "no label set shared with the original", on the heap model                                *)
+(* ---------------------------------------------------------------------------------------- *)
+(* Label sets are mutable objects; on pure values "shared" cannot be said.  Model/Heap.v +
+   Model/HeapKripkeOps.v: a Kripke object maps every state to the CELL holding its label set;
+   the constructor, clone() and get_substructure(V) all end in `Kripke(S, S0, R, L)`, which
+   allocates a new cell per state.  Proofs in Proofs/HeapKripkeOpsP.v (axiom-free). *)
+From PMC Require Import Model.Heap Model.HeapKripkeOps Proofs.HeapP Proofs.HeapKripkeOpsP.
+
+(* the constructed object has the pure value, is valid (one cell per state, no two states
+   sharing a cell) and lives in cells that did not exist: nothing of the caller's L is kept *)
+Theorem C14_ctor_fresh_label_sets : forall h St St0 R L h1 kc, mk_kripke_h h St St0 R L = (h1, Ok kc) ->
+  mk_kripke St St0 R L = Ok (abs h1 kc) /\ valid h1 kc /\
+  (forall l, In l (locs kc) -> ~ allocated h l) /\
+  (forall l, allocated h l -> hget h1 l = hget h l).
+Proof. exact mk_kripke_h_spec. Qed.
+Print Assumptions C14_ctor_fresh_label_sets.
+
+(* clone(): no label set of the clone is one of the original's; a write into a label set of
+   either side leaves the value of the other side alone *)
+Theorem C14_clone_no_shared_label_set : forall h k h1 kc, valid h k -> clone_h h k = (h1, Ok kc) ->
+  abs h1 k = abs h k /\
+  (forall l c, In l (locs kc) -> abs (write_label_h h1 l c) k = abs h k) /\
+  (forall l c, In l (locs k) -> abs (write_label_h h1 l c) kc = abs h1 kc) /\
+  (forall l, In l (locs kc) -> ~ In l (locs k)).
+Proof. exact clone_independent_h. Qed.
+Print Assumptions C14_clone_no_shared_label_set.
+
+(* get_substructure(V): the same, and its value is the pure one; when it raises nothing was
+   allocated or written *)
+Theorem C14_substructure_no_shared_label_set : forall h k V h1 kc, valid h k -> substructure_h h k V = (h1, Ok kc) ->
+  substructure (abs h k) V = Ok (abs h1 kc) /\ valid h1 kc /\
+  abs h1 k = abs h k /\
+  (forall l c, In l (locs kc) -> abs (write_label_h h1 l c) k = abs h k) /\
+  (forall l c, In l (locs k) -> abs (write_label_h h1 l c) kc = abs h1 kc) /\
+  (forall l, In l (locs kc) -> ~ In l (locs k)).
+Proof.
+  intros h k V h1 kc Hv H.
+  destruct (substructure_h_spec _ _ _ _ _ H) as (A & B & _).
+  destruct (substructure_independent _ _ _ _ _ Hv H) as (C & D & E & F).
+  split; [exact A|]. split; [exact B|]. split; [exact C|]. split; [exact D|]. split; [exact E|exact F].
+Qed.
+Print Assumptions C14_substructure_no_shared_label_set.
+
+Theorem C14_substructure_raises_cleanly : forall h k V h1 rc, substructure_h h k V = (h1, rc) ->
+  (forall kc, rc <> Ok kc) -> h1 = h /\ forall K, substructure (abs h k) V <> Ok K.
+Proof. exact substructure_h_err. Qed.
+Print Assumptions C14_substructure_raises_cleanly.
+
+(* non-vacuity: a clone that installs a new dict over the SAME label sets
+   (`replace_labelling_function(dict(self._labels))`) violates it *)
+Theorem C14_sharing_clone_refuted :
+  ~ (forall h k h1 kc l c, valid h k -> clone_sharing_labels_h h k = (h1, Ok kc) ->
+       In l (locs kc) -> abs (write_label_h h1 l c) k = abs h k).
+Proof. exact KExamples.sharing_clone_refutes_independence. Qed.
+Print Assumptions C14_sharing_clone_refuted.
